@@ -39,12 +39,15 @@ def faultOf : String → Option Fault
 def parseThreads : Nat → List String → Option (List Thread × List String)
   | 0, ts => some ([], ts)
   | n + 1, k :: l :: a :: f :: ts => do
-    let kind ← (if k == "a" then some Kind.activate else if k == "r" then some Kind.revoke else none)
+    -- kind letter, optionally followed by the spelling number of the code in the request ("a", "r2", …)
+    let kind ← (match k.toList with
+      | 'a' :: _ => some Kind.activate | 'r' :: _ => some Kind.revoke | _ => none)
+    let sp ← (if k.length == 1 then some 0 else (String.ofList (k.toList.drop 1)).toNat?)
     let l ← l.toNat?
     let a ← a.toNat?
     let f ← faultOf f
     let (r, ts') ← parseThreads n ts
-    pure ({ kind := kind, listener := l, laddr := a, fault := f } :: r, ts')
+    pure ({ kind := kind, listener := l, laddr := a, fault := f, spell := sp } :: r, ts')
   | _, _ => none
 
 def parseEv (s : String) : Option Ev :=
